@@ -283,4 +283,54 @@ theorem C11_index_absent_notfound (sch : Schema) (db : Db) (n : Nat) (kw : Kw) (
     | cons r t => exact absurd ((h2 r).mp List.mem_cons_self).2 (habs r ((h2 r).mp List.mem_cons_self).1)
   rw [h1, this]; rfl
 
+/-! ## Non-vacuity: concrete tables and queries (evaluated by the kernel) -/
+
+def exSch : Schema :=
+  { table := ['t'], othTable := ['o'],
+    cols := [⟨['a'], ['a'], none⟩, ⟨['b', 'V'], ['b', '_', 'v'], none⟩, ⟨['f', 'k', 'I', 'D'], ['f', 'k', '_', 'i', 'd'], some ['f', 'k']⟩] }
+
+def exDb : Db :=
+  { rows := [⟨1, [some 1, some 2, some 1]⟩, ⟨2, [none, some 2, none]⟩, ⟨3, [some 1, none, some 2]⟩, ⟨4, [some 1, none, some 2]⟩],
+    oth := [some 1, some 1, some 2] }
+
+def ids (o : Option (List Row)) : Option (List Int) := o.map (·.map (·.id))
+
+def exOrder : OrderBy := .many [.str ['-', 'a'], .str ['b', 'V']]
+
+example : ids (evalSelect exSch exDb (Sel.new exSch none (some exOrder) false false)) = some [3, 4, 1, 2] := by decide
+example : ids (evalSelect exSch exDb (Sel.new exSch none (some exOrder) false false).rev) = some [2, 1, 3, 4] := by decide
+example : intentKeys exSch false false exOrder.args = some [(.col 0, true), (.col 1, false)] := by decide
+example : intentKeys exSch false true exOrder.args = some [(.col 0, false), (.col 1, true)] := by decide
+example : ids (evalSelect exSch exDb (Sel.new exSch none (some (.one (.expr (.desc (.desc (.desc (.field .id))))))) false false))
+    = some [4, 3, 2, 1] := by decide
+example : (selectBy exSch [(['a'], .int 1), (['b', 'V'], .none)]).map (fun s => (source exDb s.clause).map (·.id)) = some [3, 4] := by decide
+example : selectBy exSch [(['f', 'k'], .obj 2), (['z'], .int 1)] = none := by decide
+example : (selectBy exSch [(['f', 'k'], .obj 2)]).map (fun s => (source exDb s.clause).map (·.id)) = some [3, 4] := by decide
+def exJoin : Sel := Sel.new exSch (some (.cmp .eq .othG (.col (.col 0)))) none false true
+example : ids (evalSelect exSch exDb exJoin) = some [1, 3, 4] := by decide
+example : evalAgg exSch exDb (countPlan exJoin) = some (.int (some 3)) := by decide
+example : evalAgg exSch exDb (countPlan { exJoin with distinct := false }) = some (.int (some 6)) := by decide
+example : evalAgg exSch exDb (aggPlan exJoin .sum (.const ['b', '_', 'v'])) = some (.int (some 2)) := by decide
+example : evalAgg exSch exDb (aggPlan (Sel.new exSch (some (.isNull (.col (.col 0)))) none false false) .max (.field (.col 0)))
+    = some (.int none) := by decide
+example : evalAgg exSch exDb (aggPlan (Sel.new exSch none none false false) .avg (.field (.col 2))) = some (.ratio (some (5, 3))) := by decide
+example : getOne false ([] : List Int) = .notFound ∧ getOne true ([] : List Int) = .default
+    ∧ getOne false [7] = .value 7 ∧ getOne false [7, 8, 9] = .integrity := by decide
+example : fetchAlternateID exDb (.col 1) (some 5) = .notFound ∧ fetchAlternateID exDb (.col 2) (some 1) = .value 1 := by decide
+example : indexGet exSch exDb 2 [(['a'], .int 1), (['f', 'k'], .obj 1)] = .value 1
+    ∧ indexGet exSch exDb 2 [(['a'], .int 1), (['f', 'k'], .obj 2)] = .integrity
+    ∧ indexGet exSch exDb 2 [(['a'], .int 2), (['f', 'k'], .obj 2)] = .notFound
+    ∧ indexGet exSch exDb 2 [(['a'], .int 2)] = .typeError := by decide
+
+
+/-- the aggregate of a DISTINCT select is over the distinct column VALUES (SQL `SUM(DISTINCT col)`), which
+    is not the sum over the distinct ROWS when two distinct rows share a value -/
+theorem C11_distinct_aggregate_is_over_values :
+    ∃ (sch : Schema) (db : Db) (s : Sel) (out : List Row), KeyIds db ∧ s.distinct = true
+      ∧ evalSelect sch db s = some out
+      ∧ evalAgg sch db (aggPlan s .sum (.field (.col 0))) = some (.int (some 1))
+      ∧ sumL (out.filterMap (·.get (.col 0))) = 3 :=
+  ⟨exSch, exDb, Sel.new exSch none none false true, exDb.rows, by unfold KeyIds; decide, rfl, by decide, by decide, by decide⟩
+
+
 end SqlObjVerif.Query
